@@ -21,31 +21,32 @@ func leanStrList(l []string) string {
 // model INTERPRETS (TdModel.Rpc.Cfg.ofRaw) and that the scheduler uses to decide when a parked
 // thread can be released (so that a changed wake-up condition is explored, not masked).
 type Src struct {
-	OK             bool
-	HookSites      []string
-	GuardPresent   bool     // Do defers: if !CAS(&handlerCalled,0,1) { wait }
-	GuardWait      []string // what the guard waits for: ["<-done"] or the cases of its select
-	CasBeforeDec   bool
-	DoSelect       []string // cases of Do's final select
-	LoopSelect     []string // cases of the retry loop's select
-	WaitClosedPref string   // in Do's close branch, how a concurrent result is detected: done | entered | none
-	LoopClosedAck  bool     // the loop's close branch prefers a concurrently arrived ack
-	RecheckAck     bool     // timer branch: non-blocking <-ackChan before e.send
-	RecheckCtx     bool     // timer branch: ctx.Err() check before e.send
-	DropIfSent     bool     // cancel branch returns before the drop request when the request was not sent
-	NopOnCancel    bool     // cancel branch replaces the handler by a no-op
-	DeleteOnReturn bool     // Do defers delete(e.rpc, id)
-	RemoveAckDefer bool     // retryUntilAck defers e.removeAck(id)
-	AckUnknown     string   // NotifyAcks on an id without waiter: continue | break | return | other
-	AckCloses      bool     // NotifyAcks closes the channel of a known id
-	AckDeletes     bool     // ... and deletes it from e.ack
-	RetryLimitCmp  bool
-	TimerInterval  bool
-	DefMaxRetries  int
-	DefIntervalSec int
-	ForceCloseOK   bool
-	PoolRetryable  []string
-	CliRetryable   []string
+	OK              bool
+	HookSites       []string
+	GuardPresent    bool     // Do defers: if !CAS(&handlerCalled,0,1) { wait }
+	GuardWait       []string // what the guard waits for: ["<-done"] or the cases of its select
+	CasBeforeDec    bool
+	DoSelect        []string // cases of Do's final select
+	LoopSelect      []string // cases of the retry loop's select
+	WaitClosedPref  string   // in Do's close branch, how a concurrent result is detected: done | entered | none
+	LoopClosedAck   bool     // the loop's close branch prefers a concurrently arrived ack
+	RecheckAck      bool     // timer branch: non-blocking <-ackChan before e.send
+	RecheckCtx      bool     // timer branch: ctx.Err() check before e.send
+	DropIfSent      bool     // cancel branch returns before the drop request when the request was not sent
+	NopOnCancel     bool     // cancel branch replaces the handler by a no-op
+	DeleteOnReturn  bool     // Do defers delete(e.rpc, id)
+	RemoveAckDefer  bool     // retryUntilAck defers e.removeAck(id)
+	HandlerLogFirst bool     // the handler's first statement is the "Handler called" log record
+	AckUnknown      string   // NotifyAcks on an id without waiter: continue | break | return | other
+	AckCloses       bool     // NotifyAcks closes the channel of a known id
+	AckDeletes      bool     // ... and deletes it from e.ack
+	RetryLimitCmp   bool
+	TimerInterval   bool
+	DefMaxRetries   int
+	DefIntervalSec  int
+	ForceCloseOK    bool
+	PoolRetryable   []string
+	CliRetryable    []string
 }
 
 func commCases(f *hc.Facts, sel *ast.SelectStmt) []string {
@@ -184,6 +185,16 @@ func ReadSrc(f *hc.Facts) Src {
 			}
 		}
 	}
+	ast.Inspect(do, func(x ast.Node) bool {
+		as, ok := x.(*ast.AssignStmt)
+		if !ok || len(as.Lhs) != 1 || f.Src(as.Lhs[0]) != "handler" || len(as.Rhs) != 1 {
+			return true
+		}
+		if fl, ok := as.Rhs[0].(*ast.FuncLit); ok && len(fl.Body.List) > 0 {
+			s.HandlerLogFirst = strings.Contains(f.Src(fl.Body.List[0]), `"Handler called"`)
+		}
+		return false
+	})
 	hsrc := f.Src(do)
 	if i := strings.Index(hsrc, "handler := func("); i >= 0 {
 		h := hsrc[i:]
@@ -308,6 +319,7 @@ func Facts(f *hc.Facts) {
 	f.Bool("nopOnCancel", s.NopOnCancel, "cancel branch installs a no-op handler before the drop request")
 	f.Bool("deleteOnReturn", s.DeleteOnReturn, "Do defers delete(e.rpc, req.MsgID)")
 	f.Bool("removeAckDeferred", s.RemoveAckDefer, "retryUntilAck defers e.removeAck(req.MsgID)")
+	f.Bool("handlerLogFirst", s.HandlerLogFirst, "the handler's first statement is the \"Handler called\" log record (scheduling point handler.log, before the CAS)")
 	f.Str("ackUnknown", s.AckUnknown, "NotifyAcks, id without waiter: what the loop does")
 	f.Bool("ackCloses", s.AckCloses, "NotifyAcks closes the waiter's channel")
 	f.Bool("ackDeletes", s.AckDeletes, "NotifyAcks deletes the waiter from e.ack")
